@@ -611,6 +611,33 @@ fn clearly_unsafe(a: &ArgMeta) -> bool {
     }
 }
 
+/// Everything an exchange exposes as safe to log, in a fixed order.
+pub fn safe_channels(exchanges: &[Exchange]) -> Vec<(String, String)> {
+    let mut v = Vec::new();
+    // a bit flip inside a canary yields a byte that depends on the canary (a quote in one run, a
+    // letter in the other): what the decoder then does legitimately differs between the twins
+    if exchanges.iter().any(|ex| ex.req_fired.iter().chain(&ex.resp_fired).any(|f| f.kind == FK::ByteFlip)) {
+        return vec![("not_comparable".into(), String::new())];
+    }
+    for ex in exchanges {
+        if let Some(sp) = &ex.safe_params {
+            for (k, val) in sp {
+                v.push((format!("safe_params:{}:call{}", k, ex.call), val.clone()));
+            }
+        }
+        if let ServerOut::Err(e) = &ex.server {
+            for (k, val) in &e.safe_params {
+                v.push((format!("error_safe_param:{}:call{}", k, ex.call), val.clone()));
+            }
+            v.push((format!("cause_safe_flag:call{}", ex.call), e.cause_safe.to_string()));
+            if e.cause_safe {
+                v.push((format!("safe_cause:call{}", ex.call), e.cause.clone()));
+            }
+        }
+    }
+    v
+}
+
 fn c09(ctx: &Ctx, knobs: &GenKnobs, calls: &[CallRec], exchanges: &[Exchange]) {
     let canaries = [knobs.alpha.clone(), knobs.digits.to_string(), format!("{:08x}", knobs.hex)];
     for c in calls {
@@ -812,8 +839,11 @@ enum Want {
 }
 
 fn json_prefix_is_doc(bytes: &[u8]) -> bool {
-    let mut it = serde_json::Deserializer::from_slice(bytes).into_iter::<Value>();
-    matches!(it.next(), Some(Ok(_)))
+    let mut it = serde_json::Deserializer::from_slice(bytes).into_iter::<serde::de::IgnoredAny>();
+    match it.next() {
+        Some(Ok(_)) => std::str::from_utf8(&bytes[..it.byte_offset()]).is_ok(),
+        _ => false,
+    }
 }
 
 fn c06(ctx: &Ctx, calls: &[CallRec], exchanges: &[Exchange], records: &[Record], sequential: bool) {
